@@ -375,7 +375,9 @@ def vacuity(st):
 
 def run(tier, seed):
     t0 = time.time()
+    n_self = au.selftest()  # the automaton construction against Python's own matcher (independent of reuse)
     st = explore(MODULE, tier, seed)
+    st.extra["automaton_selftest_comparisons"] = n_self
     return finish(
         ID, "model_checking", MODULE, tier, seed, st, t0,
         rule=("every well-formed glob over {a . / * \\} up to max_glob_len and every unordered pair of globs of length <= 2; "
